@@ -108,6 +108,25 @@ theorem bs_index_spec (s : BitVec 32) (h1 : 1 ≤ s.toNat) (h2 : s.toNat ≤ 2 ^
     ∃ i, Gen.bsIndex s = some i ∧ s.toNat ≤ 2 ^ i.toNat ∧ ∀ j : Nat, s.toNat ≤ 2 ^ j → i.toNat ≤ j :=
   Proofs.Arith.bs_index_spec s h1 h2
 
+/-- a larger request is never served from a smaller size class -/
+theorem bs_index_monotone (s t : BitVec 32) (h1 : 1 ≤ s.toNat) (hst : s.toNat ≤ t.toNat) (h2 : t.toNat ≤ 2 ^ 31) :
+    ∃ i j, Gen.bsIndex s = some i ∧ Gen.bsIndex t = some j ∧ i.toNat ≤ j.toNat := by
+  obtain ⟨i, hi, _, hmin⟩ := Proofs.Arith.bs_index_spec s h1 (by omega)
+  obtain ⟨j, hj, hle, _⟩ := Proofs.Arith.bs_index_spec t (by omega) h2
+  exact ⟨i, j, hi, hj, hmin _ (by omega)⟩
+
+/-- the size class wastes less than half: its capacity `2^i` is below twice the requested size -/
+theorem bs_index_tight (s : BitVec 32) (h1 : 1 ≤ s.toNat) (h2 : s.toNat ≤ 2 ^ 31) :
+    ∃ i, Gen.bsIndex s = some i ∧ s.toNat ≤ 2 ^ i.toNat ∧ 2 ^ i.toNat < 2 * s.toNat := by
+  obtain ⟨i, hi, hle, hmin⟩ := Proofs.Arith.bs_index_spec s h1 h2
+  refine ⟨i, hi, hle, ?_⟩
+  rcases Nat.eq_zero_or_pos i.toNat with h0 | hpos
+  · rw [h0]; omega
+  · have hn : ¬ s.toNat ≤ 2 ^ (i.toNat - 1) := fun h => by have := hmin _ h; omega
+    have : 2 ^ i.toNat = 2 * 2 ^ (i.toNat - 1) := by
+      conv => lhs; rw [show i.toNat = (i.toNat - 1) + 1 by omega, Nat.pow_succ]
+      omega
+    omega
 /-- packing (fd, loop index, row, column) and unpacking returns the same four values -/
 theorem gfd_roundtrip (fd el row col : BitVec 64) (seq : BitVec 32)
     (hel : el.toNat < 256) (hrow : row.toNat < 256) (hcol : col.toNat < 65536) :
@@ -128,6 +147,7 @@ example : Gen.CeilToPowerOfTwo 1000#64 = some 1024#64 := by decide
 example : Gen.FloorToPowerOfTwo (BitVec.ofNat 64 (2 ^ 40 + 5)) = some (BitVec.ofNat 64 (2 ^ 40)) := by decide
 example : Gen.ClosestPowerOfTwo 6#64 = some 8#64 := by decide
 example : Gen.bsIndex 4097#32 = some 13#32 := by decide
+example : Gen.bsIndex 4096#32 = some 12#32 := by decide
 example : Gen.CeilToPowerOfTwo 1024#64 = some 1024#64 := by decide
 example : (2 : Int) < (1000#64).toInt ∧ (1000#64).toInt ≤ 2 ^ 62 := by decide
 
